@@ -122,6 +122,10 @@ func c03Scope(c *Check) map[*ssa.Function]bool {
 		if fn == nil || scope[fn] || !p.IsRepoFn(fn) {
 			return
 		}
+		// the command-line front end (flag parsing, printing) is not peer-facing
+		if pk := fnPkg(fn); pk != nil && strings.HasPrefix(pk.Pkg.Path(), pAppCmd) {
+			return
+		}
 		scope[fn] = true
 		work = append(work, fn)
 	}
@@ -584,6 +588,10 @@ func checkC03(c *Check) {
 					key := "C03.R3:" + name + "@" + fnName(caller) + ":" + s
 					if err != nil {
 						c.Undecided(key, r3, p.InstrPos(e.Site), err.Error())
+						continue
+					}
+					if j, ok := table.just[fnName(caller)+"|contract|"+name+":"+s]; ok && !clp.proveAt(e.Site, L, R, 0, nil) {
+						c.OK(key, r3+" [justified: "+j.Reason+"]", p.InstrPos(e.Site))
 						continue
 					}
 					c.Req(clp.proveAt(e.Site, L, R, 0, nil), key, r3, p.InstrPos(e.Site), "the caller does not establish `"+s+"` (p<i> = argument i, receiver first) before calling "+name+": the callee's index/slice expressions rely on it")
